@@ -948,3 +948,107 @@ def _v_loop(interp, args, kwargs, node):
     v, n = args
     key = z3.StringVal(f"CDR{concrete_int(n)}-IMGT")
     return VStr(z3.If(_has_loop(v.term, key), _loop_seq(v.term, key), z3.StringVal("")))
+
+
+# ---- groupby on OPAQUE frames (C13): term level.  Group k of (frame, by) is the opaque frame grp(frame, by, k); the number of groups is
+# ngroups(frame, by); groupby(by).apply(f) is the Series of f(group k) in group order; groupby(by).filter(p) keeps the rows of the groups
+# satisfying p (named by the structure of p evaluated on a generic group).
+
+def _ngroups(interp, fr, by):
+    n = E.opaque(interp, "ngroups", [fr, by], None, "int", rsort=z3.IntSort())
+    ctx = interp.ctx
+    ctx.assume(n >= 0)
+    rows = E.opaque(interp, "len", [fr], None, "int", rsort=z3.IntSort())
+    ctx.assume(z3.And(rows >= 0, n <= rows, (rows >= 1) == (n >= 1)), "extern:groupby: between 1 and len(frame) groups for a non-empty frame, none for an empty one")
+    if True:
+        col = E.opaque(interp, "getitem", [fr, by], None, "Series")
+        vc = E.opaque(interp, "Series.value_counts", [col], None, "Series")
+        nvc = E.opaque(interp, "len", [vc], None, "int", rsort=z3.IntSort())
+        ctx.assume(nvc == n, "extern:len(frame[key].value_counts()) is the number of groups of frame.groupby(key)")
+    return n
+
+
+def _group(interp, fr, by, k):
+    g = E.opaque(interp, "group", [fr, by, VInt(k)], None, "DataFrame")
+    return g
+
+
+@method("DataFrame", "groupby")
+def _df_groupby(interp, sv, args, kwargs, node):
+    if getattr(sv, "cols", None) is not None or len(args) != 1 or kwargs:
+        raise Unsupported("groupby is modelled for opaque frames and a single positional key")
+    o = VObj("GroupBy")
+    o.frame, o.by = sv, args[0]
+    interp.ctx.assumed.add("extern:DataFrame.groupby(by): the groups partition the rows by the key, enumerated in sorted key order")
+    return o
+
+
+def _generic_group_eval(interp, gb, f, node):
+    """evaluate the callable f on a generic group; returns (k constant, result Value)"""
+    k = z3.Int("k!grp")
+    g = _group(interp, gb.frame, gb.by, k)
+    return k, interp.call(f, [interp.born(g)], {}, node)
+
+
+@method("GroupBy", "apply")
+def _gb_apply(interp, sv, args, kwargs, node):
+    f = args[0] if args else kwargs.get("func")
+    if not isinstance(f, VFunc) or len(args) + len(kwargs) != 1:
+        raise Unsupported("GroupBy.apply argument form")
+    k, r = _generic_group_eval(interp, sv, f, node)
+    m = _ngroups(interp, sv.frame, sv.by)
+    interp.ctx.assumed.add("extern:GroupBy.apply(f): the Series / frame of f(group) for every group in group order")
+    if isinstance(r, (VReal, VInt)):
+        t = to_real(r)
+        ser = VList(SymSeq(m, lambda j: VReal(z3.substitute(t, (k, j if not isinstance(j, int) else z3.IntVal(j))), True), T.RealT(np=True)), "Series")
+        ser.labels = None
+        import hashlib
+        ser.sid = "gapply:" + hashlib.sha1((z3.simplify(t).sexpr() + "|" + z3.simplify(m).sexpr()).encode()).hexdigest()[:12]
+        ser.vec_name = ser.sid
+        return interp.born(ser)
+    if isinstance(r, VObj) and r.term is not None:
+        # f returns a Series / array per group: the stacked result is an opaque frame determined by (frame, by, f's term on a generic group)
+        return interp.born(E.opaque(interp, "GroupBy.apply", [sv.frame, sv.by, VObj("object", r.term)], None, "DataFrame"))
+    raise Unsupported(f"GroupBy.apply: the applied function returns {r!r}")
+
+
+@method("GroupBy", "filter")
+def _gb_filter(interp, sv, args, kwargs, node):
+    f = args[0] if args else kwargs.get("func")
+    if not isinstance(f, VFunc) or len(args) + len(kwargs) != 1:
+        raise Unsupported("GroupBy.filter argument form")
+    k, r = _generic_group_eval(interp, sv, f, node)
+    c = interp.as_bool_term(r, node)
+    interp.ctx.assumed.add("extern:GroupBy.filter(p): the frame of the rows whose group satisfies p (row order kept)")
+    cond = VObj("object", z3.Function("group_predicate[" + z3.simplify(c).sexpr().replace(" ", "_")[:200] + "]", z3.IntSort(), OBJ)(k))
+    out = E.opaque(interp, "GroupBy.filter", [sv.frame, sv.by, cond], None, "DataFrame")
+    return interp.born(out)
+
+
+@S.spec("groups_where")
+def _groups_where(interp, args, kwargs, node):
+    """groups_where(df, by, lambda g: p(g)): the rows of df whose group (by the key) satisfies p"""
+    df, by, f = args
+    gb = VObj("GroupBy")
+    gb.frame, gb.by = df, by
+    return _gb_filter(interp, gb, [f], {}, node)
+
+
+@S.spec("group_values")
+def _group_values(interp, args, kwargs, node):
+    """group_values(df, by, lambda g: v(g)): the vector of v(group), one entry per group of df by the key, in group order"""
+    df, by, f = args
+    gb = VObj("GroupBy")
+    gb.frame, gb.by = df, by
+    return _gb_apply(interp, gb, [f], {}, node)
+
+
+@extern("numpy.ones")
+def _np_ones(interp, args, kwargs, node):
+    n = args[0]
+    if not isinstance(n, VInt) or kwargs:
+        raise Unsupported("np.ones argument form")
+    from . import vec
+    v = VList(SymSeq(n.term, lambda k: VReal(z3.RealVal(1), True), T.RealT(np=True)), "ndarray")
+    v.poly = {(): z3.RealVal(1)}
+    return interp.born(v)
